@@ -7,7 +7,7 @@ import time
 import vlib
 from vlib import say
 
-CASES = {"quick": 160000, "thorough": 6000000}
+CASES = {"quick": 120000, "thorough": 6000000}
 BATCH = {"quick": 10000, "thorough": 125000}
 ADAPT_CASES = {"quick": 120000, "thorough": 4000000}
 
@@ -16,6 +16,7 @@ RULES = {
     "C02": "same programs as C01; non-trivial when additionally >=1 zero-copy result (Next/Peek/Until/GetBytes vector/Slice reader) was still live while a later mutating operation ran; distinct = distinct (LinkBufferCap, op-kind x size-class sequence) hash.",
     "C03": "same programs as C01; non-trivial when additionally the pool ledger observed >=1 Free; distinct = distinct (LinkBufferCap, op-kind x size-class sequence) hash.",
 }
+RULES["C16"] = "seeded adapter cases: NewReader over a scripted io.Reader (chunks 0..9000 bytes, shorter than asked, (0,nil), data together with io.EOF or a custom error, error at any position) driven by random Next/Peek/Skip/ReadBinary/ReadString/ReadByte/Slice/Until/Release sequences; NewWriter over a scripted io.Writer (short writes at any boundary, zero-byte accepts, errors) driven by random Malloc/WriteBinary/WriteString/WriteByte/WriteDirect/MallocAck/Append/Flush sequences; NewIOReader/NewIOWriter over a LinkBuffer. Non-trivial: the script contains a short, empty or erroring step; distinct = hash of (mode, LinkBufferCap, script shape, op-kind x size-class sequence)."
 SIGKEY = {"C01": "c01", "C02": "c02", "C03": "c03"}
 NTKEY = {"C01": "nontrivial_c01", "C02": "nontrivial_c02", "C03": "nontrivial_c03"}
 
@@ -98,7 +99,8 @@ def run(prop, tier, seed, replay=None):
             guard += 1
             tag = "b%d-%d" % (frm, guard)
             env = {"VERIF_SEED": str(seed), "VERIF_FROM": str(frm), "VERIF_COUNT": str(cnt),
-                   "VERIF_SIGS": os.path.join(sc, "sig-%d-%d" % (frm, guard)), "VERIF_KNOWN": kenv}
+                   "VERIF_SIGS": os.path.join(sc, "sig-%d-%d" % (frm, guard)), "VERIF_KNOWN": kenv,
+                   "GOGC": "800", "GOMAXPROCS": "2"}
             r = vlib.run_child(binary, test, env, 3600, tag)
             recs_all += r["records"]
             stats = [x for x in r["records"] if x.get("kind") == "stats"]
@@ -159,7 +161,7 @@ def run(prop, tier, seed, replay=None):
         name = "seed%d-case%d" % (seed, case)
         obj = {"engine": "lbfuzz", "test": test, "property": prop, "oracle": v.get("oracle"), "msg": v.get("msg"),
                "op_index": v.get("op_index"), "op": v.get("op"), "seed": seed, "case": case, "case_seed": v.get("case_seed"),
-               "shrunk": v["kind"] == "shrunk", "program": v.get("program"), "detail": v.get("detail"),
+               "shrunk": v["kind"] == "shrunk", "program": v.get("program"), "adapter_case": v.get("adapter_case"), "detail": v.get("detail"),
                "how_to_replay": "python3 bin/vcheck.py %s --replay <this file>" % prop}
         path = vlib.save_replay(prop, name, obj)
         # confirm in a fresh process
